@@ -6,6 +6,8 @@ import (
 	"runtime"
 	"strconv"
 	"sync"
+
+	"capnproto.org/go/capnp/v3/internal/verifhook"
 )
 
 // An Interface is a reference to a client in a message's capability table.
@@ -176,6 +178,7 @@ func (c *Client) startCall() (hook ClientHook, resolved, released bool, finish f
 	if c == nil {
 		return nil, true, false, func() {}
 	}
+	verifhook.Yield(107)
 	defer c.mu.Unlock()
 	c.mu.Lock()
 	if c.h == nil {
@@ -190,6 +193,7 @@ func (c *Client) startCall() (hook ClientHook, resolved, released bool, finish f
 	c.h.mu.Unlock()
 	savedHook := c.h
 	return savedHook.ClientHook, savedHook.isResolved(), false, func() {
+		verifhook.Yield(108)
 		savedHook.mu.Lock()
 		savedHook.calls--
 		if savedHook.refs == 0 && savedHook.calls == 0 {
@@ -203,6 +207,7 @@ func (c *Client) peek() (hook *clientHook, released bool, resolved bool) {
 	if c == nil {
 		return nil, false, true
 	}
+	verifhook.Yield(111)
 	defer c.mu.Unlock()
 	c.mu.Lock()
 	if c.h == nil {
@@ -231,6 +236,7 @@ func resolveHook(h *clientHook) *clientHook {
 			return h
 		}
 		h.mu.Unlock()
+		verifhook.Yield(100)
 		h = r
 		if h == nil {
 			return nil
@@ -246,6 +252,7 @@ func resolveHook(h *clientHook) *clientHook {
 func (c *Client) SendCall(ctx context.Context, s Send) (*Answer, ReleaseFunc) {
 	h, _, released, finish := c.startCall()
 	defer finish()
+	verifhook.Yield(101)
 	if released {
 		return ErrorAnswer(s.Method, newError("call on released client")), func() {}
 	}
@@ -263,6 +270,7 @@ func (c *Client) SendCall(ctx context.Context, s Send) (*Answer, ReleaseFunc) {
 func (c *Client) RecvCall(ctx context.Context, r Recv) PipelineCaller {
 	h, _, released, finish := c.startCall()
 	defer finish()
+	verifhook.Yield(102)
 	if released {
 		r.Reject(newError("call on released client"))
 		return nil
@@ -322,6 +330,7 @@ func (c *Client) AddRef() *Client {
 	if c == nil {
 		return nil
 	}
+	verifhook.Yield(109)
 	defer c.mu.Unlock()
 	c.mu.Lock()
 	if c.released {
@@ -430,6 +439,7 @@ func (c *Client) Release() {
 	if c == nil {
 		return
 	}
+	verifhook.Yield(104)
 	c.mu.Lock()
 	if c.released || c.h == nil {
 		c.mu.Unlock()
@@ -455,6 +465,7 @@ func (c *Client) Release() {
 	}
 	h.mu.Unlock()
 	c.mu.Unlock()
+	verifhook.Yield(103)
 	<-h.done
 	h.Shutdown()
 }
@@ -538,6 +549,7 @@ func (cp *ClientPromise) Fulfill(c *Client) {
 	}
 
 	// Mark hook as resolved.
+	verifhook.Yield(105)
 	cp.h.mu.Lock()
 	if cp.h.isResolved() {
 		cp.h.mu.Unlock()
@@ -561,6 +573,7 @@ func (cp *ClientPromise) Fulfill(c *Client) {
 		rh.refs += refs
 		rh.mu.Unlock()
 	}
+	verifhook.Yield(106)
 	<-cp.h.done
 	cp.h.Shutdown()
 }
@@ -581,6 +594,7 @@ func (wc *WeakClient) AddRef() (c *Client, ok bool) {
 	if wc.h == nil {
 		return nil, true
 	}
+	verifhook.Yield(110)
 	wc.h.mu.Lock()
 	wc.h = resolveHook(wc.h)
 	if wc.h == nil {
